@@ -618,3 +618,44 @@ Proof.
   - apply (NE _ Hin).
   - apply (F _ Hin).
 Qed.
+
+(* ------------------------------------------------------------------ the recursive listing is exact *)
+
+Lemma entries_nodelim rp keys : forall seen,
+  entries_of seen rp false keys = map EKey (filter (starts_with rp) keys).
+Proof.
+  induction keys as [|k ks IH]; intros seen; [reflexivity|].
+  cbn [entries_of filter]. unfold classify. destruct (starts_with rp k); cbn [map]; now rewrite IH.
+Qed.
+
+Lemma keys_of_entries_keys l : keys_of_entries (map EKey l) = l.
+Proof. induction l as [|k l IH]; [reflexivity|]. cbn. now rewrite <- IH at 2. Qed.
+Lemma pres_of_entries_keys l : pres_of_entries (map EKey l) = [].
+Proof. induction l as [|k l IH]; [reflexivity|]. exact IH. Qed.
+
+(** keys are Rust Strings: the character after "prefix/" starts a UTF-8 sequence *)
+Definition keys_boundary_ok (cp : bytes) (keys : list bytes) : Prop :=
+  forall k rel, In k keys -> k = under cp rel -> head_is_boundary rel = true.
+
+Lemma list_objects_exact_lemma keys cp path :
+  pfx_ok cp = true -> keys_boundary_ok cp keys ->
+  exists rels, list_all keys cp path false = Ok (rels, []) /\
+               map (under cp) rels = filter (starts_with (request_prefix cp path)) keys.
+Proof.
+  intros Hc Hb. unfold list_all, process_page.
+  rewrite entries_nodelim, keys_of_entries_keys, pres_of_entries_keys. cbn [map_res].
+  set (rp := request_prefix cp path).
+  assert (H : forall l, (forall k, In k l -> In k keys /\ starts_with rp k = true) ->
+                        exists rels, map_res (slice_from (prefix_offset cp)) l = Ok rels /\ map (under cp) rels = l).
+  { induction l as [|k l IH]; intros Hl; [exists []; auto|].
+    destruct (Hl k (or_introl eq_refl)) as [Hin Hs].
+    destruct (prefix_offset_exact cp path k Hc Hs) as (rel & E & Hslice).
+    destruct IH as (rels & E1 & E2); [intros k' Hk'; apply Hl; now right|].
+    exists (rel :: rels). cbn [map_res map]. rewrite Hslice by (eapply Hb; eauto). rewrite E1. now rewrite E2, <- E. }
+  destruct (H (filter (starts_with rp) keys)) as (rels & E1 & E2).
+  { intros k Hk. now apply filter_In in Hk. }
+  exists rels. now rewrite E1.
+Qed.
+
+Lemma c15_class_pfx_ok cp : c15_prefix_trailing_slash cp = false <-> pfx_ok cp = true.
+Proof. unfold c15_prefix_trailing_slash, pfx_ok. destruct (last_is_slash cp); cbn; split; congruence. Qed.
